@@ -1,3 +1,4 @@
+import GramModel.Lemmas.ArmsTie
 import GramModel.Lemmas.Eval
 import GramModel.Lemmas.DeBruijn
 
@@ -194,3 +195,19 @@ theorem C02_let_first : C02_let_first_stmt := by
   induction h with
   | refl => exact Steps.refl
   | head h _ ih => exact Steps.head (Step.letD h) ih
+
+/-! ## The primitive rules are the ones `evaluator.rs` contains, operator by operator (regenerated on every run) -/
+
+/-- For each of the nine binary operators, the primitive that the corresponding arm of `evaluator.rs::step`
+applies to two integer literals (read off the source by `extract/arms.py`: operator, operand order, which boolean
+the `if` yields, `checked_div`) computes exactly the model's `delta` — for all operands. -/
+def C02_step_prims_tie_stmt : Prop :=
+  ∀ (op : BinOp) (a b : Int),
+    (primOf Generated.stepPrims op.toV).bind (fun p => p.sem a b) = delta op a b
+theorem C02_step_prims_tie : C02_step_prims_tie_stmt := stepPrims_delta
+
+/-- Every binary arm of `evaluator.rs::step` has the one shape the model implements for all nine operators: the
+left operand steps first and must then be a value, then the right operand steps and must then be a value; the
+two congruence nodes keep the operator and the places of the operands. -/
+def C02_step_shape_tie_stmt : Prop := stepShapeOK = true
+theorem C02_step_shape_tie : C02_step_shape_tie_stmt := by unfold C02_step_shape_tie_stmt; decide
